@@ -52,8 +52,12 @@ Print Assumptions C14_history_independent.
    object); for each of the 25 UnmarshalBinary methods (packet and wire
    types) the receiver is never left holding a reference into the data
    argument - every byte field is made by make+copy or a string conversion -
-   and the packet ReadPacket / ReadRemaining return does not reach into the
-   reader. *)
+   none of them writes the bytes it was given (an append into the spare
+   capacity of the caller's read buffer, where the next frame lies, counts:
+   writes to the object a pointer receiver or parameter points to itself are
+   kept apart from writes to what that object reaches, so the decoder's own
+   cursor and error fields do not count), and the packet ReadPacket /
+   ReadRemaining return does not reach into the reader. *)
 Theorem C14_decoders_copy : g_decoder_retains = [] /\ List.length g_decoders = 27%nat.
 Proof. exact (conj sync_decoders_copy sync_decoders_covered). Qed.
 Print Assumptions C14_decoders_copy.
